@@ -1,5 +1,5 @@
 (* C01 — N-Triples, N-Quads (and RDF/JSON) encoders round-trip every dataset. *)
-From RK Require Import Base Utf8 Runes NQ NQProofs NQRoundTrip.
+From RK Require Import Base Utf8 Runes NQ NQProofs NQRoundTrip Utf8Proofs.
 
 (* ASCII option: every byte of the encoded document is below 0x80, for all datasets; the parts the
    writers copy verbatim from the caller (blank node labels of a custom labeller, language tags) are
@@ -26,6 +26,12 @@ Theorem C01_decode_encode : forall ascii nq qs, Forall (quad_ok nq) qs ->
   exists stmts, decode nq (drs (encode ascii qs)) TEof = (stmts, VOk) /\ map st_quad stmts = qs.
 Proof. exact decode_encode. Qed.
 Print Assumptions C01_decode_encode.
+
+(* the same on bytes: the written runes, UTF-8 encoded, read rune by rune as bufio.Reader.ReadRune delivers them *)
+Theorem C01_bytes_roundtrip : forall ascii nq qs, Forall (quad_ok nq) qs ->
+  exists stmts, decode_bytes nq (utf8_encode (encode ascii qs)) TEof = (stmts, VOk) /\ map st_quad stmts = qs.
+Proof. exact decode_bytes_encode. Qed.
+Print Assumptions C01_bytes_roundtrip.
 
 (* non-vacuity: an IRI with a non-ASCII code point, a blank node, a language-tagged and a typed literal, a graph name *)
 Example C01_quads_ok :
